@@ -10,6 +10,8 @@ import (
 	"strconv"
 	"strings"
 
+	"github.com/LemoFoundationLtd/lemochain-core/common"
+
 	"verifharness/engine"
 )
 
@@ -242,11 +244,21 @@ func driveTrees(args []string) error {
 	rng := rand.New(rand.NewSource(*seed))
 	w := &world{tag: fmt.Sprintf("trees%d", *seed)}
 	defer w.close()
+	if fs.NArg() > 0 {
+		*num = fs.NArg()
+	}
 	for i := 0; i < *num; i++ {
 		g := &treeGen{rng: rng, maxDepth: *depth}
-		root := g.node(0, "call", contractNames[rng.Intn(3)], rng.Intn(2), false, "U")
+		var root *Node
+		if fs.NArg() > 0 { // explicit trees (text form) instead of generated ones
+			if root, err = parseTree(fs.Arg(i)); err != nil {
+				return err
+			}
+		} else {
+			root = g.node(0, "call", contractNames[rng.Intn(3)], rng.Intn(2), false, "U")
+		}
 		base := map[string]map[string]int{}
-		if rng.Intn(2) == 0 { // half of the programs start from committed non-zero storage
+		if fs.NArg() == 0 && rng.Intn(2) == 0 { // half of the programs start from committed non-zero storage
 			for _, c := range contractNames {
 				base[c] = map[string]int{"s1": rng.Intn(3), "s2": rng.Intn(2)}
 			}
@@ -267,7 +279,192 @@ func driveTrees(args []string) error {
 	return nil
 }
 
+// ---- arbitrary byte strings, opcode soups, precompile inputs, unbounded recursion
+
+var soupOps = []byte{0x00, 0x01, 0x02, 0x03, 0x04, 0x06, 0x0a, 0x10, 0x14, 0x15, 0x16, 0x19, 0x1a, 0x20, 0x30, 0x31, 0x32, 0x33, 0x34, 0x35, 0x36,
+	0x37, 0x38, 0x39, 0x3a, 0x3b, 0x3c, 0x3d, 0x3e, 0x40, 0x41, 0x42, 0x43, 0x44, 0x45, 0x50, 0x51, 0x52, 0x53, 0x54, 0x55, 0x56, 0x57, 0x58,
+	0x59, 0x5a, 0x5b, 0x80, 0x81, 0x82, 0x90, 0x91, 0xa0, 0xa1, 0xa2, 0xf0, 0xf1, 0xf1, 0xf2, 0xf3, 0xf4, 0xfa, 0xfd, 0xfe, 0xff}
+
+// soup: random valid opcodes fed with operands that make them reach the account backend (small numbers, the
+// universe's addresses, precompile addresses, the gas left)
+func soup(rng *rand.Rand, n int) []byte {
+	a := newAsm()
+	operand := func() {
+		switch rng.Intn(8) {
+		case 0, 1, 2:
+			a.push(uint64(rng.Intn(4)))
+		case 3:
+			a.push(uint64(rng.Intn(70)))
+		case 4:
+			a.pushBytes(addrOf[allNames[rng.Intn(4)]].Bytes())
+		case 5:
+			a.push(uint64(1 + rng.Intn(9))) // a precompile address
+		case 6:
+			a.op(opGAS)
+		default:
+			a.push(uint64(rng.Intn(1 << 16)))
+		}
+	}
+	for i := 0; i < n; i++ {
+		op := soupOps[rng.Intn(len(soupOps))]
+		k := rng.Intn(8)
+		for j := 0; j < k; j++ {
+			operand()
+		}
+		a.op(op)
+	}
+	return a.bytes()
+}
+
+func randBytes(rng *rand.Rand, n int) []byte {
+	b := make([]byte, n)
+	rng.Read(b)
+	return b
+}
+
+// selfCall: code that calls its own account again with all the gas it may pass on (unbounded recursion).
+func selfCall(kind string, store bool) []byte {
+	a := newAsm()
+	if store {
+		a.push(1).push(1).op(opSSTORE)
+	}
+	a.push(0).push(0).push(0).push(0)
+	if kind == "call" || kind == "callcode" {
+		a.push(0)
+	}
+	a.op(0x30).op(opGAS).op(callOp(kind)).op(opSTOP) // ADDRESS GAS <CALL>
+	return a.bytes()
+}
+
+var rewardInputs = []string{`{"term":0,"value":"1000"}`, `{"term":"0","value":"5"}`, `{"term":1}`, `{"value":"7"}`, `{}`, `[]`, `null`, `{"term":0,"value":null}`,
+	`{"term":0,"value":"-5"}`, `{"term":4294967295,"value":"1"}`, `{"term":0,"value":"99999999999999999999999999999999999999999999"}`, `{"term":0,"value":1e3}`, ``}
+
+func driveRand(args []string) error {
+	fs := flag.NewFlagSet("callframes-rand", flag.ContinueOnError)
+	out := fs.String("out", "trace.ndjson", "")
+	seed := fs.Int64("seed", 1, "")
+	num := fs.Int("n", 200, "")
+	if err := fs.Parse(args); err != nil {
+		return err
+	}
+	f, err := os.Create(*out)
+	if err != nil {
+		return err
+	}
+	defer f.Close()
+	bw := bufio.NewWriterSize(f, 1<<20)
+	defer bw.Flush()
+	enc := json.NewEncoder(bw)
+	rng := rand.New(rand.NewSource(*seed))
+	w := &world{tag: fmt.Sprintf("rand%d", *seed)}
+	defer w.close()
+	if err := enc.Encode(map[string]interface{}{"ev": "reset", "beh": 0, "step": 0, "bal": initBal, "base": fullBase(nil)}); err != nil {
+		return err
+	}
+	deepKinds := []string{"call", "callcode", "delegatecall", "staticcall"}
+	for i := 0; i < *num; i++ {
+		codeAt := map[string][]byte{}
+		var to *common.Address
+		var input []byte
+		gas := uint64(rng.Intn(120000))
+		if rng.Intn(4) == 0 {
+			gas = uint64(rng.Intn(3000))
+		}
+		value := 0
+		if rng.Intn(4) == 0 {
+			value = 1
+		}
+		kind := ""
+		switch m := i % 8; {
+		case i < 8: // unbounded recursion, every call kind, with and without a state change per level
+			kind = "deep:" + deepKinds[i%4]
+			code := selfCall(deepKinds[i%4], i >= 4)
+			if deepKinds[i%4] != "call" { // the recursing kinds that keep the context are entered through a plain call
+				a := newAsm()
+				a.push(0).push(0).push(0).push(0)
+				if deepKinds[i%4] == "callcode" {
+					a.push(0)
+				}
+				a.pushBytes(addrOf["B"].Bytes()).op(opGAS).op(callOp(deepKinds[i%4])).op(opSTOP)
+				codeAt["A"], codeAt["B"] = a.bytes(), code
+			} else {
+				codeAt["A"] = code
+			}
+			t := addrOf["A"]
+			to, gas, value = &t, 10000000000000, 0
+		case m == 0 || m == 1:
+			kind = "bytes"
+			for _, c := range contractNames {
+				codeAt[c] = randBytes(rng, 1+rng.Intn(80))
+			}
+			t := addrOf["A"]
+			to, input = &t, randBytes(rng, rng.Intn(70))
+		case m == 2 || m == 3 || m == 4:
+			kind = "soup"
+			for _, c := range contractNames {
+				codeAt[c] = soup(rng, 1+rng.Intn(30))
+			}
+			t := addrOf["A"]
+			to, input = &t, randBytes(rng, rng.Intn(70))
+		case m == 5:
+			kind = "create"
+			if rng.Intn(2) == 0 {
+				input = soup(rng, 1+rng.Intn(30))
+			} else {
+				input = randBytes(rng, 1+rng.Intn(80))
+			}
+			for _, c := range contractNames {
+				codeAt[c] = soup(rng, 1+rng.Intn(20))
+			}
+		default:
+			p := 1 + rng.Intn(9)
+			kind = fmt.Sprintf("precompile%d", p)
+			t := common.BytesToAddress([]byte{byte(p)})
+			to = &t
+			switch {
+			case p == 9 && rng.Intn(4) > 0:
+				input = []byte(rewardInputs[rng.Intn(len(rewardInputs))])
+			case rng.Intn(3) == 0:
+				input = randBytes(rng, 32*rng.Intn(9)) // word-aligned
+			default:
+				input = randBytes(rng, rng.Intn(300))
+			}
+			if p == 5 && len(input) >= 96 && rng.Intn(2) == 0 { // modexp: plausible small length words
+				for k := 0; k < 96; k++ {
+					input[k] = 0
+				}
+				input[31], input[63], input[95] = byte(rng.Intn(40)), byte(rng.Intn(40)), byte(rng.Intn(40))
+			}
+			if rng.Intn(2) == 0 {
+				gas = uint64(rng.Intn(4000000))
+			}
+		}
+		h, err := w.base(codeAt, nil)
+		if err != nil {
+			return err
+		}
+		r1, ts := w.callRaw(h, to, input, gas, value, nil)
+		r2, _ := w.callRaw(h, to, input, gas, value, ts)
+		toHex := "create"
+		if to != nil {
+			toHex = to.Hex()
+		}
+		code := map[string]string{}
+		for c, b := range codeAt {
+			code[c] = fmt.Sprintf("%x", b)
+		}
+		fl := map[string]interface{}{"ev": "Rand", "beh": 0, "step": i + 1, "kind": kind, "to": toHex, "input": fmt.Sprintf("%x", input), "code": code, "value": value,
+			"r1": r1.fields(), "r2": r2.fields(), "pre": w.pre(h, ts)}
+		if err := enc.Encode(fl); err != nil {
+			return err
+		}
+	}
+	fmt.Printf("{\"programs\": %d}\n", *num)
+	return nil
+}
+
 func init() {
+	engine.RegisterDriver("callframes-rand", driveRand)
 	engine.RegisterDriver("callframes-probe", driveProbe)
 	engine.RegisterDriver("callframes-trees", driveTrees)
 }
